@@ -8,7 +8,7 @@ from hypothesis import strategies as st
 from .. import qrref as R
 from .. import colors, raster, vector
 from ..common import call, Refused, Crash, enc_content
-from ..runner import Dev, Outcome, Enum, Search
+from ..runner import HarnessError, Dev, Outcome, Enum, Search
 from .c09 import make_symbol, symbols
 from .c10 import svg_color_rgba
 
@@ -257,6 +257,8 @@ def check_colourful(case):
                     got8 = None if got is None else tuple(got[:3]) + (int(round(float(got[3]) * 255)),)
                     if not same(got8, exp[r][c]):
                         note(r, c, got8, exp[r][c])
+    except (raster.Unsupported, vector.Unsupported) as ex:
+        raise HarnessError('reader limitation (%s): %s' % (kind, ex))
     except (raster.FormatError, vector.FormatError) as ex:
         devs.append(Dev('C11/malformed-' + kind, str(ex)))
     if bad:
